@@ -452,6 +452,86 @@ def run_functional_overloads(ctx):
                 ctx.violation(comp, cfg, 'raises:' + type(ex).__name__, message=str(ex)[:200], second=hn)
 
 
+def run_registry_wrappers(ctx):
+    """The operator overloads around every *library* leaf (registry recipes: ~700 operator instances on real / complex /
+    weighted / discretized / product spaces), decided by the algebraic meaning relative to the leaf's own values:
+    (sA)x = s A(x), (As)x = A(sx), (A/s)x = A(x/s) (documented right division), (A+A)x = 2A(x), (A-A)x = 0, (-A)x = -A(x), (A+v)x = A(x)+v,
+    (A-v)x = A(x)-v, (vA)x = v A(x), (Aw)x = A(wx), (IA)x = (AI)x = A(x) - out of place, in place into a NaN-filled
+    element, and with the wrappers' flags (linearity) consistent with the rule."""
+    from .. import registry
+    from .c03 import base_point, comp_of
+    rng = ctx.rng('registry-wrappers')
+    crng = ctx.crng('registry-wrappers-ctor')
+    for i, (group, name, thunk) in enumerate(registry.all_recipes(crng, ctx.thorough)):
+        if not ctx.mine(i) or group == 'func':
+            continue
+        if not ctx.thorough and (i // ctx.nshards) % 2 != ctx.seed % 2:
+            continue
+        try:
+            A = thunk()
+            x = base_point(A, name, rng)
+            y0 = A(x)
+        except Exception:
+            continue
+        ran, dom = A.range, A.domain
+        if util.is_field(ran) or util.is_field(dom):
+            continue
+        if any(np.dtype(l.dtype).kind not in 'fc' for sp in (dom, ran) for _p, l in util.leaves(sp)):
+            continue
+        cplx = getattr(ran, 'field', None) == odl.ComplexNumbers() and getattr(dom, 'field', None) == odl.ComplexNumbers()
+        sc = (1.5 - 0.5j) if cplx else -2.5
+        try:
+            v = util.rand_element(ran, rng)
+            w = util.rand_element(dom, rng)
+        except Exception:
+            continue
+        if registry.needs_positive(name):
+            sc = 0.8
+            w = dom.element(np.abs(np.asarray(w)) + 0.1) if not util.is_pspace(dom) else None
+
+        def A_at(pt):
+            return A(pt)
+        rules = [('s*', lambda: sc * A, lambda: sc * y0), ('*s', lambda: A * sc, lambda: A_at(sc * x)), ('/s', lambda: A / sc, lambda: A_at(x / sc)),
+                 ('+op', lambda: A + A, lambda: 2 * y0), ('-op', lambda: A - A, lambda: y0 - y0), ('neg', lambda: -A, lambda: -1 * y0),
+                 ('+v', lambda: A + v, lambda: y0 + v), ('-v', lambda: A - v, lambda: y0 - v), ('v*', lambda: v * A, lambda: v * y0),
+                 ('*w', lambda: A * w, lambda: A_at(w * x)), ('Io', lambda: odl.IdentityOperator(ran) * A, lambda: y0),
+                 ('oI', lambda: A * odl.IdentityOperator(dom), lambda: y0), ('s*(+v)*s', lambda: (sc * (A + v)) * sc, lambda: sc * (A_at(sc * x) + v))]
+        cfg = '%s->%s' % (util.space_tag(dom), util.space_tag(ran))
+        for tag, mk, rule in rules:
+            if tag == '*w' and w is None:
+                continue
+            try:
+                W = mk()
+            except Exception:
+                continue     # overload not offered for this leaf: nothing to compare
+            ctx.ev('reference-interpreter')
+            ctx.case('registry-wrapper;%s;%s' % (comp_of(name), tag), name)
+            try:
+                with np.errstate(all='ignore'):
+                    ref = util.to_cvec(ran, rule())
+                if not np.all(np.isfinite(ref)):
+                    ctx.skip('reference not finite')
+                    continue
+                tol = 1e-10 * max(1.0, float(np.abs(ref).max()) if ref.size else 1.0)
+                got = util.to_cvec(ran, W(x))
+                if not np.allclose(got, ref, rtol=1e-10, atol=tol):
+                    ctx.violation('wrapper:' + tag, cfg, 'value', name=name, maxdiff=float(np.abs(got - ref).max()))
+                    continue
+                out = util.fill(ran.element(), 'nan')
+                try:
+                    W(x, out=out)
+                    if not np.allclose(util.to_cvec(ran, out), ref, rtol=1e-10, atol=tol):
+                        ctx.violation('wrapper:' + tag, cfg, 'inplace-value', name=name)
+                except (odl.OpNotImplementedError, NotImplementedError):
+                    pass
+                ctx.ev('flag-honesty')
+                lin_rule = A.is_linear and tag not in ('+v', '-v', 's*(+v)*s')
+                if W.is_linear and not lin_rule:
+                    ctx.violation('wrapper:' + tag, cfg, 'flagged-linear-but-affine-or-nonlinear', name=name)
+            except Exception as e:
+                ctx.violation('wrapper:' + tag, cfg, 'raises:' + type(e).__name__, name=name, message=str(e)[:200])
+
+
 def run(ctx):
     ctx.note('rule', 'one case = one expression tree (text form is the key); depth-2 trees: every ordered pair of the %d '
                      'combinators x {linear, nonlinear, functional} leaves x {R, C} x scalar classes; deeper trees seeded; '
@@ -471,6 +551,7 @@ def run(ctx):
     cov.arm()
     run_depth2(ctx)
     run_random_trees(ctx)
+    run_registry_wrappers(ctx)
     if ctx.shard == 0:
         run_functional_overloads(ctx)
     cov.disarm()
